@@ -40,6 +40,9 @@ func c16reply(q *dns.Msg, leg string) *dns.Msg {
 	r := new(dns.Msg)
 	r.SetReply(q)
 	tag := atoi(p[1])
+	if p[1] == "auto" { // the answer identifies the question it was produced for
+		tag = c16nonce(q) & 0xFFFFFF
+	}
 	r.Truncated = p[2] == "1"
 	r.Answer = append(r.Answer, &dns.A{
 		Hdr: dns.RR_Header{Name: q.Question[0].Name, Rrtype: dns.TypeA, Class: dns.ClassINET, Ttl: 60},
@@ -126,6 +129,10 @@ func c16setup() {
 					if leg == "err" {
 						return // close without replying
 					}
+					if leg == "hang" { // the query is read, no reply ever comes, the connection stays open
+						io.Copy(io.Discard, c)
+						return
+					}
 					rb, _ := c16reply(q, leg).Pack()
 					out := make([]byte, 2+len(rb))
 					binary.BigEndian.PutUint16(out, uint16(len(rb)))
@@ -164,6 +171,9 @@ func c16run(cs string) string {
 	defer cancel()
 	r, err := up.ExchangeContext(ctx, qb)
 	res := "err"
+	if err == nil && r == nil {
+		res = "nilnil" // neither a message nor an error
+	}
 	if err == nil && r != nil {
 		tag := -1
 		// decode the nonce from the A record through a re-pack (the A type is internal)
@@ -220,6 +230,10 @@ func c16gen(r *rand.Rand, thorough bool, emit func(c, cat string)) {
 			emit(fmt.Sprintf("q=%d u=%s t=%s", q, legs(u), legs(t)), fmt.Sprintf("u%d-t%d", u, t))
 		}
 	}
+	for i := 0; i < 2+n/40; i++ { // a TCP leg that never answers: the caller gets the leg's error at its deadline
+		q = 1 + r.Intn(1<<20)
+		emit(fmt.Sprintf("q=%d u=%s t=hang", q, legs(2)), "u2-thang")
+	}
 	for i := 0; i < n; i++ {
 		u, t := r.Intn(8), r.Intn(3)
 		if u > 2 {
@@ -233,12 +247,16 @@ func c16gen(r *rand.Rand, thorough bool, emit func(c, cat string)) {
 // fallbackseq: several truncated queries in a row on ONE upstream; with close=1 the TCP server closes the
 // connection after every reply, so the 2nd, 3rd … query finds a stale pooled TCP connection (the leg must retry
 // on a fresh one and the caller must still get the TCP reply, not an error and not the truncated message).
-// case : seq=<k> close=<0|1> gap=<ms> q=<nonce>      out : res=<ok|tc|err>,…
+// case : seq=<k> par=<p> close=<0|1> gap=<ms> q=<nonce>      out : res=<ok|tc|err|wrong>,… (k rounds of p concurrent queries)
 func c16runSeq(cs string) string {
 	m := kv(cs)
-	k, gap := atoi(m["seq"]), atoi(m["gap"])
+	k, gap, par := atoi(m["seq"]), atoi(m["gap"]), atoi(m["par"])
+	if par < 1 {
+		par = 1
+	}
 	c16.mu.Lock()
 	c16.closeAfterReply = m["close"] == "1"
+	c16.u, c16.t = "ok:auto:1", "ok:auto:0"
 	c16.mu.Unlock()
 	defer func() { c16.mu.Lock(); c16.closeAfterReply = false; c16.mu.Unlock() }()
 	up, err := upstream.NewUpstream(fmt.Sprintf("127.0.0.1:%d", c16.port), upstream.Opt{})
@@ -246,25 +264,44 @@ func c16runSeq(cs string) string {
 		return "newupstream-error"
 	}
 	defer up.Close()
-	var res []string
+	res := make([]string, k*par)
 	for i := 0; i < k; i++ {
-		c16.mu.Lock()
-		c16.u, c16.t = fmt.Sprintf("ok:%d:1", 1000+i), fmt.Sprintf("ok:%d:0", 2000+i)
-		c16.mu.Unlock()
-		q := new(dns.Msg)
-		q.SetQuestion(fmt.Sprintf("q%d.test.", atoi(m["q"])+i), dns.TypeA)
-		qb, _ := q.Pack()
-		ctx, cancel := context.WithTimeout(context.Background(), 2*time.Second)
-		r, err := up.ExchangeContext(ctx, qb)
-		cancel()
-		switch {
-		case err != nil || r == nil:
-			res = append(res, "err")
-		case r.Header.Truncated:
-			res = append(res, "tc")
-		default:
-			res = append(res, "ok")
+		var wg sync.WaitGroup
+		for j := 0; j < par; j++ {
+			idx := i*par + j
+			nonce := (atoi(m["q"]) + idx) & 0xFFFFFF
+			wg.Add(1)
+			go func() {
+				defer wg.Done()
+				q := new(dns.Msg)
+				q.SetQuestion(fmt.Sprintf("q%d.test.", nonce), dns.TypeA)
+				q.Id = uint16(0x2222 + idx)
+				qb, _ := q.Pack()
+				ctx, cancel := context.WithTimeout(context.Background(), 2*time.Second)
+				r, err := up.ExchangeContext(ctx, qb)
+				cancel()
+				switch {
+				case err != nil || r == nil:
+					res[idx] = "err"
+				case r.Header.Truncated:
+					res[idx] = "tc"
+				default:
+					res[idx] = "ok"
+					// the caller's own id, its own question, and the answer produced for that question
+					b := make([]byte, r.Len())
+					n, perr := r.Pack(b, false, 0)
+					mm := new(dns.Msg)
+					if perr != nil || mm.Unpack(b[:n]) != nil || len(mm.Answer) != 1 || len(mm.Question) != 1 {
+						res[idx] = "wrong"
+					} else if a, ok := mm.Answer[0].(*dns.A); !ok || r.Header.ID != q.Id || mm.Question[0].Name != q.Question[0].Name {
+						res[idx] = "wrong"
+					} else if ip := a.A.To4(); int(ip[1])<<16|int(ip[2])<<8|int(ip[3]) != nonce {
+						res[idx] = "wrong"
+					}
+				}
+			}()
 		}
+		wg.Wait()
 		time.Sleep(time.Duration(gap) * time.Millisecond)
 	}
 	return "res=" + strings.Join(res, ",")
@@ -276,7 +313,7 @@ func c16genSeq(r *rand.Rand, thorough bool, emit func(c, cat string)) {
 		n = 40
 	}
 	for i := 0; i < n; i++ {
-		emit(fmt.Sprintf("seq=%d close=%d gap=%d q=%d", 2+r.Intn(3), i%2, []int{5, 30, 100}[r.Intn(3)], 1+r.Intn(1<<20)), fmt.Sprintf("close%d", i%2))
+		emit(fmt.Sprintf("seq=%d par=%d close=%d gap=%d q=%d", 2+r.Intn(3), []int{1, 1, 4, 8}[r.Intn(4)], i%2, []int{5, 30, 100}[r.Intn(3)], 1+r.Intn(1<<20)), fmt.Sprintf("close%d", i%2))
 	}
 }
 
